@@ -72,6 +72,76 @@ package experiment
 //@   ensures [nonan] forall i :: 0 <= i && i < len(result) ==> !isNaN(result[i])
 //@   ensures [fresh] fresh(result) && result != nil
 
+// ---- C19: trial- and experiment-level aggregates ------------------------------------------------------------
+//@ func (*Trial).Solved
+//@   props C19
+//@   requires t != nil
+//@   modifies nothing
+//@   noalloc
+//@   ensures [def] result <==> (exists i :: 0 <= i && i < len(t.Generations) && t.Generations[i].Solved)
+//@   loop 1:
+//@     invariant -1 <= #idx && #idx < len(t.Generations)
+//@     invariant forall i :: 0 <= i && i <= #idx ==> !t.Generations[i].Solved
+//@ func (*Trial).Diversity
+//@   props C19
+//@   requires t != nil
+//@   modifies nothing
+//@   ensures [len] len(result) == len(t.Generations) && fresh(result)
+//@   ensures [def] forall i :: 0 <= i && i < len(t.Generations) ==> result[i] == real(t.Generations[i].Diversity)
+//@   loop 1:
+//@     invariant -1 <= #idx && #idx < len(t.Generations) && len(x) == len(t.Generations) && fresh(x)
+//@     invariant forall i :: 0 <= i && i <= #idx ==> x[i] == real(t.Generations[i].Diversity)
+//@ func (*Trial).ChampionsFitness
+//@   props C19
+//@   requires t != nil
+//@   modifies nothing
+//@   ensures [len] len(result) == len(t.Generations) && fresh(result)
+//@   ensures [def] forall i :: 0 <= i && i < len(t.Generations) ==> result[i] == (t.Generations[i].Champion != nil ? t.Generations[i].Champion.Fitness : 0.0)
+//@   loop 1:
+//@     invariant -1 <= #idx && #idx < len(t.Generations) && len(x) == len(t.Generations) && fresh(x)
+//@     invariant forall i :: 0 <= i && i <= #idx ==> x[i] == (t.Generations[i].Champion != nil ? t.Generations[i].Champion.Fitness : 0.0)
+//@     invariant forall i :: #idx < i && i < len(x) ==> x[i] == 0.0
+// WinnerStatistics reports the first solved generation; what it caches must be an independent copy, so that the
+// recorded generations remain the only source of the statistics.
+//@ func (*Trial).WinnerStatistics
+//@   props C19
+//@   requires t != nil && t.WinnerGeneration == nil
+//@   ensures [empty] len(t.Generations) == 0 ==> nodes == -1 && genes == -1 && evals == -1 && diversity == -1
+//@   ensures [unsolved] len(t.Generations) > 0 && (forall i :: 0 <= i && i < len(t.Generations) ==> !t.Generations[i].Solved) ==> nodes == 0 && genes == 0 && evals == 0 && diversity == 0 && t.WinnerGeneration == nil
+//@   ensures [winner] forall s :: 0 <= s && s < len(t.Generations) && t.Generations[s].Solved && (forall k :: 0 <= k && k < s ==> !t.Generations[k].Solved) ==> nodes == t.Generations[s].WinnerNodes && genes == t.Generations[s].WinnerGenes && evals == t.Generations[s].WinnerEvals && diversity == t.Generations[s].Diversity
+//@   ensures [cacheIsCopy] t.WinnerGeneration != nil ==> fresh(t.WinnerGeneration) && t.WinnerGeneration.WinnerNodes == nodes && t.WinnerGeneration.WinnerGenes == genes && t.WinnerGeneration.WinnerEvals == evals && t.WinnerGeneration.Diversity == diversity
+//@   ensures [recordKept] unchanged(t.Generations)
+//@   loop 1:
+//@     invariant -1 <= #idx && #idx < len(t.Generations) && nodes == 0 && genes == 0 && evals == 0 && diversity == 0 && t.WinnerGeneration == nil
+//@     invariant forall i :: 0 <= i && i <= #idx ==> !t.Generations[i].Solved
+//@     invariant unchanged(t.Generations)
+//@ func (*Experiment).TrialsSolved
+//@   props C19
+//@   requires e != nil
+//@   modifies nothing
+//@   ensures [range] 0 <= result && result <= len(e.Trials)
+//@   ensures [none] result == 0 <==> (forall i :: 0 <= i && i < len(e.Trials) ==> (forall k :: 0 <= k && k < len(e.Trials[i].Generations) ==> !e.Trials[i].Generations[k].Solved))
+//@   loop 1:
+//@     invariant -1 <= #idx && #idx < len(e.Trials) && 0 <= count && count <= #idx + 1
+//@     invariant count == 0 <==> (forall i :: 0 <= i && i <= #idx ==> (forall k :: 0 <= k && k < len(e.Trials[i].Generations) ==> !e.Trials[i].Generations[k].Solved))
+//@ func (*Experiment).SuccessRate
+//@   props C19
+//@   fdef
+//@   requires e != nil
+//@   modifies nothing
+//@   ensures [empty] len(e.Trials) == 0 ==> result == 0.0
+//@   ensures [range] 0.0 <= result && result <= 1.0
+//@   ensures_local [def] len(e.Trials) > 0 ==> result == solved / real(len(e.Trials))
+//@ func (*Experiment).EpochsPerTrial
+//@   props C19
+//@   requires e != nil
+//@   modifies nothing
+//@   ensures [len] len(result) == len(e.Trials) && fresh(result)
+//@   ensures [def] forall i :: 0 <= i && i < len(e.Trials) ==> result[i] == real(len(e.Trials[i].Generations))
+//@   loop 1:
+//@     invariant -1 <= #idx && #idx < len(e.Trials) && len(x) == len(e.Trials) && fresh(x)
+//@     invariant forall i :: 0 <= i && i <= #idx ==> x[i] == real(len(e.Trials[i].Generations))
+
 // ---- C20: the trial / generation protocol of Experiment.Execute ---------------------------------
 // Ghost protocol state, advanced only by the (assumed) contracts of the callbacks below.
 //@ ghost gTrial Int          // index of the trial whose population was spawned last (-1 before the first)
